@@ -32,7 +32,9 @@ import (
 //	C20.mw <P> <mode> <seed> <req>;…    concurrent requests through ONE LogMiddleware
 //	    P     GOMAXPROCS while the scenario runs
 //	    mode  w0: one wrapped handler for all requests; w1: mw.Wrap is called per request
-//	          (same middleware, hence same pools)
+//	          (same middleware, hence same pools); d0, d1: the same with the middleware's own
+//	          level (Debug) below the logger's minimum (Info): no "started"/"finished" records,
+//	          everything else — the handler's context logger included — as before
 //	    seed  jitter of the recording slog.Handler (0 none, 1 Gosched, 2 short sleep in
 //	          Enabled/Handle); the Lean driver derives its model schedule from it
 //	    req = <host>:<method>:<raddr>:<uri>:<rest>:<delay>:<op>.<op>…   (hex fields)
@@ -129,6 +131,7 @@ type c20RecHandler struct {
 	root  *c20Root
 	attrs []slog.Attr
 	snap  []slog.Attr
+	min   slog.Level // minimum enabled level (the zero value is Info)
 }
 
 func c20ShowAttrs(as []slog.Attr) string {
@@ -156,9 +159,9 @@ func c20CarriesOwn(as []slog.Attr, q *c20Req) bool {
 	return len(found) == len(want)
 }
 
-func (h *c20RecHandler) Enabled(context.Context, slog.Level) bool {
+func (h *c20RecHandler) Enabled(_ context.Context, l slog.Level) bool {
 	h.root.yield()
-	return true
+	return l >= h.min
 }
 
 func (h *c20RecHandler) Handle(_ context.Context, r slog.Record) error {
@@ -198,7 +201,7 @@ func (h *c20RecHandler) WithAttrs(as []slog.Attr) slog.Handler {
 	if inv := h.root.cur(); inv != nil && len(as) > 0 {
 		inv.ptrs[0] = unsafe.Pointer(unsafe.SliceData(as))
 	}
-	nh := &c20RecHandler{root: h.root}
+	nh := &c20RecHandler{root: h.root, min: h.min}
 	if len(h.attrs) == 0 {
 		nh.attrs = as
 	} else {
@@ -369,7 +372,12 @@ func evalC20MW(f []string) Result {
 
 	root := &c20Root{jitter: seed % 3}
 	sc := &c20Scenario{root: root, seen: map[unsafe.Pointer]bool{}}
-	mw := httputil.NewLogMiddleware(slog.New(&c20RecHandler{root: root}), slog.LevelInfo)
+	mwLevel := slog.LevelInfo
+	if mode[0] == 'd' {
+		// the middleware logs below the logger's minimum level
+		mwLevel = slog.LevelDebug
+	}
+	mw := httputil.NewLogMiddleware(slog.New(&c20RecHandler{root: root}), mwLevel)
 	shared := mw.Wrap(http.HandlerFunc(func(w http.ResponseWriter, r *http.Request) { sc.serve(w, r, -1) }))
 
 	var first, differing *Result
@@ -436,7 +444,7 @@ func c20Round(sc *c20Scenario, mw *httputil.LogMiddleware, shared http.Handler, 
 				RequestURI: string(q.uri),
 			}).WithContext(ctx)
 			h := shared
-			if mode == "w1" {
+			if mode[1] == '1' {
 				h = mw.Wrap(http.HandlerFunc(func(w http.ResponseWriter, r *http.Request) { sc.serve(w, r, i) }))
 			}
 			<-start
@@ -469,6 +477,10 @@ func c20Round(sc *c20Scenario, mw *httputil.LogMiddleware, shared http.Handler, 
 			inv.failf("client-response", "client got %d %x, the invocation wrote %d %x", inv.rec.Code, inv.rec.Body.Bytes(), wantCode, wantBody)
 		}
 		switch {
+		case mode[0] == 'd':
+			if len(inv.finished)+inv.started != 0 {
+				inv.failf("disabled-record", "%d \"started\" and %d \"finished\" records although the middleware's level is disabled", inv.started, len(inv.finished))
+			}
 		case len(inv.finished) != 1:
 			inv.failf("missing-record", "%d \"finished\" records on the request's goroutine", len(inv.finished))
 		case !panics && inv.finished[0] != wantCode:
@@ -744,7 +756,7 @@ func genC20(rng *rand.Rand, tier string) (cases []string) {
 		for j := 0; j < n; j++ {
 			reqs = append(reqs, c20GenReq(rng, j, &dup))
 		}
-		cases = append(cases, fmt.Sprintf("C20.mw %d %s %d %s", pick(rng, 1, 1, 2, 2, 4, 8), pick(rng, "w0", "w0", "w1"), rng.IntN(1<<30), strings.Join(reqs, ";")))
+		cases = append(cases, fmt.Sprintf("C20.mw %d %s %d %s", pick(rng, 1, 1, 2, 2, 4, 8), pick(rng, "w0", "w0", "w1", "w0", "w0", "w1", "d0", "d1"), rng.IntN(1<<30), strings.Join(reqs, ";")))
 	}
 	// real-server requests (chunked bodies with trailers), sequential and concurrent
 	for i := 0; i < max(nwrap/100, 4); i++ {
